@@ -33,3 +33,4 @@ def rules(ctx):
     S.survey2_rules(ctx)
     S.round5_rules(ctx)
     S.handover_rules(ctx)
+    S.round6_rules(ctx)
